@@ -52,6 +52,20 @@ CallProbes ==
             InitOK(u, rt), [ret |-> rt, used_as |-> u])
       : rt \in Tys, u \in Tys }
 
+\* the result of a function or METHOD (declared type rt, or no return type at all: rt = "") used where type u is required:
+\* as initialiser of a typed definition, as argument, as returned value of a function declaring u
+ResultProbes ==
+    { Probe("result-use",
+            <<Fun("f", <<>>, rt, <<>>, IF rt = "" THEN <<PrintS(StrL("f"))>> ELSE <<Expr(Lit(rt))>>),
+              Class("K", <<>>, <<>>, <<>>, <<Method("m", TRUE, <<>>, rt, <<>>, IF rt = "" THEN <<PrintS(StrL("m"))>> ELSE <<Expr(Lit(rt))>>)>>),
+              Fun("takes", <<Param("x", u, Absent)>>, "", <<>>, <<PrintS(StrL("t"))>>)>>
+            \o (IF use = "ret" THEN <<Fun("h", <<>>, u, <<>>, <<Expr(IF callee = "fun" THEN Call("f", <<>>) ELSE MCall(New("K", <<>>), "m", <<>>))>>)>> ELSE <<>>),
+            IF callee = "mvar" THEN <<Def("k", TRUE, "", New("K", <<>>))>> ELSE <<>>,
+            LET e == CASE callee = "fun" -> Call("f", <<>>) [] callee = "mnew" -> MCall(New("K", <<>>), "m", <<>>) [] callee = "mvar" -> MCall(Var("k"), "m", <<>>) IN
+            CASE use = "init" -> <<Def("r", TRUE, u, e)>> [] use = "arg" -> <<Expr(Call("takes", <<e>>))>> [] use = "ret" -> <<PrintS(StrL("x"))>>,
+            rt # "" /\ InitOK(u, rt), [ret |-> rt, used_as |-> u, callee |-> callee, use |-> use])
+      : rt \in Tys \cup {""}, u \in Tys, callee \in {"fun", "mnew", "mvar"}, use \in {"init", "arg", "ret"} }
+
 \* --- method call ----------------------------------------------------------------------
 MethodProbes ==
     UNION { { Probe("method", <<Class("K", <<>>, <<>>, <<>>, <<Method("m", TRUE, ParamsOf(sig), "Int", <<>>, <<Expr(IntL(7))>>)>>), IdFun("Int")>>,
@@ -112,7 +126,7 @@ TupleProbes ==
             [declared |-> <<q[3], q[4]>>, actual |-> <<q[1], q[2]>>])
       : q \in TT \X TT \X TT \X TT }
 
-Probes == CASE Part = "tuple" -> TupleProbes [] Part = "call" -> CallProbes [] Part = "method" -> MethodProbes [] Part = "ctor" -> CtorProbes
+Probes == CASE Part = "tuple" -> TupleProbes [] Part = "result" -> ResultProbes [] Part = "call" -> CallProbes [] Part = "method" -> MethodProbes [] Part = "ctor" -> CtorProbes
             [] Part = "return" -> {p \in ReturnProbes : p.note.shape = "nested" \/ p.note.inner = <<>>}
             [] Part = "init" -> InitProbes
 
@@ -125,7 +139,7 @@ Cases == { [prop |-> "C05", kind |-> p.kind, ctx |-> ctx, hoist |-> h, expect |-
 Admissible(c, p) == TRUE
 
 VARIABLE c
-Init == c \in { x \in Cases : /\ (x.hoist => Len(x.ctx) > 0 /\ x.kind \notin {"return", "return-method", "field-init", "call-result"}
+Init == c \in { x \in Cases : /\ (x.hoist => Len(x.ctx) > 0 /\ x.kind \notin {"return", "return-method", "field-init", "call-result", "result-use"}
                                              /\ x.kind \notin {"tuple-arg", "tuple-init"} /\ x.note.form = "var")
                               /\ (x.kind \in {"return", "return-method", "field-init"} => x.ctx = <<>>) }
 Next == UNCHANGED c
